@@ -33,7 +33,7 @@ func (b c07Bank) SendCoins(ctx context.Context, from, to sdk.AccAddress, amt sdk
 	return nil
 }
 func (b c07Bank) HasBalance(ctx context.Context, addr sdk.AccAddress, amt sdk.Coin) bool { return true }
-func (b c07Bank) MintCoins(ctx context.Context, name string, amt sdk.Coins) error       { return nil }
+func (b c07Bank) MintCoins(ctx context.Context, name string, amt sdk.Coins) error        { return nil }
 func (b c07Bank) SendCoinsFromModuleToAccount(ctx context.Context, senderModule string, recipientAddr sdk.AccAddress, amt sdk.Coins) error {
 	return nil
 }
@@ -59,9 +59,9 @@ type c07World struct {
 var c07Grid = []int64{-200, -100, 0, 100, 200}
 
 func c07AddrStub(address string) (sdk.AccAddress, error) { return sdk.AccAddress(address), nil }
-func c07AddrString(aa sdk.AccAddress) string              { return string(aa) }
+func c07AddrString(aa sdk.AccAddress) string             { return string(aa) }
 
-func c07Setup() *c07World {
+func c07Setup(curIdx int) *c07World {
 	if vNative() {
 		sdk.GetConfig().SetBech32PrefixForAccount("osmo", "osmopub")
 	}
@@ -81,7 +81,7 @@ func c07Setup() *c07World {
 	}
 	w.owner = a
 	// current tick inside the grid; the sqrt price is the tick's own (bucket lower bound) or strictly inside the bucket
-	w.cur = []int64{0, -100, 50}[vChoose("current_tick", 3)]
+	w.cur = []int64{0, -100, 50}[curIdx]
 	sqrtP := map[int64]string{0: "1", -100: "0.999950003749687527", 50: "1.000024999687507812"}[w.cur]
 	pool := model.Pool{
 		Address: vAddrTable[1], IncentivesAddress: vAddrTable[2], SpreadRewardsAddress: vAddrTable[3], Id: 1,
@@ -89,6 +89,9 @@ func c07Setup() *c07World {
 		Token0: "eth", Token1: "usdc", TickSpacing: 100, ExponentAtPriceOne: types.ExponentAtPriceOne,
 		SpreadFactor: osmomath.MustNewDecFromStr("0.003"), LastLiquidityUpdate: w.now,
 	}
+	// genesis state: accumulator scaling migration thresholds (pool 1 is on the new-scaling side)
+	w.k.SetIncentivePoolIDMigrationThreshold(w.ctx, 0)
+	w.k.SetSpreadFactorPoolIDMigrationThreshold(w.ctx, 0)
 	if err := w.k.createSpreadRewardAccumulator(w.ctx, 1); err != nil {
 		vAssume(false)
 	}
@@ -176,21 +179,40 @@ func (w *c07World) check(tag string, fullyWithdrawnTicksRemoved bool) {
 	}
 }
 
-func c07Range(name string) (int64, int64) {
-	// all 10 ordered pairs of the grid
-	pairs := [][2]int64{{-200, -100}, {-200, 0}, {-200, 100}, {-200, 200}, {-100, 0}, {-100, 100}, {-100, 200}, {0, 100}, {0, 200}, {100, 200}}
-	p := pairs[vChoose(name, len(pairs))]
-	return p[0], p[1]
+// all 10 ordered pairs of the grid (indexed by vChoose in the harness body itself, so that the split is not merged)
+var c07Pairs = [][2]int64{{-200, -100}, {-100, 0}, {-100, 100}, {0, 100}, {100, 200}, {-200, 0}, {-200, 100}, {-200, 200}, {-100, 200}, {0, 200}}
+
+// quick tier: the first five ranges (below, touching, containing, starting at and above the current tick for each of
+// the three current ticks); thorough tier: all ten
+func c07NPairs2() int {
+	if vTier() == 1 {
+		return 10
+	}
+	return 3
 }
 
-func VH_C07_two_positions() {
-	w := c07Setup()
-	l1, u1 := c07Range("range1")
+func c07NPairs() int {
+	if vTier() == 1 {
+		return 10
+	}
+	return 5
+}
+
+func VH_C07_two_positions_at_tick_boundary()  { c07_two_positions(0) }
+func VH_C07_two_positions_at_lower_boundary() { c07_two_positions(1) }
+func VH_C07_two_positions_inside_bucket()     { c07_two_positions(2) }
+
+func c07_two_positions(cur int) {
+	vConfig("lazy_math", 1)
+	w := c07Setup(cur)
+	r1 := c07Pairs[vChoose("range1", c07NPairs())]
+	l1, u1 := r1[0], r1[1]
 	if !w.open(1, l1, u1, c07Liq("liq1")) {
 		vAssume(false)
 	}
 	w.check("first", false)
-	l2, u2 := c07Range("range2")
+	r2 := c07Pairs[vChoose("range2", c07NPairs())]
+	l2, u2 := r2[0], r2[1]
 	if !w.open(2, l2, u2, c07Liq("liq2")) {
 		vAssume(false)
 	}
@@ -198,13 +220,20 @@ func VH_C07_two_positions() {
 	w.check("second", false)
 }
 
-func VH_C07_add_and_partial_withdraw() {
-	w := c07Setup()
-	l1, u1 := c07Range("range1")
+func VH_C07_add_and_partial_withdraw_at_tick_boundary()  { c07_add_and_partial_withdraw(0) }
+func VH_C07_add_and_partial_withdraw_at_lower_boundary() { c07_add_and_partial_withdraw(1) }
+func VH_C07_add_and_partial_withdraw_inside_bucket()     { c07_add_and_partial_withdraw(2) }
+
+func c07_add_and_partial_withdraw(cur int) {
+	vConfig("lazy_math", 1)
+	w := c07Setup(cur)
+	r1 := c07Pairs[vChoose("range1", c07NPairs())]
+	l1, u1 := r1[0], r1[1]
 	if !w.open(1, l1, u1, c07Liq("liq1")) {
 		vAssume(false)
 	}
-	l2, u2 := c07Range("range2")
+	r2 := c07Pairs[vChoose("range2", c07NPairs2())]
+	l2, u2 := r2[0], r2[1]
 	if !w.open(2, l2, u2, c07Liq("liq2")) {
 		vAssume(false)
 	}
@@ -225,13 +254,20 @@ func VH_C07_add_and_partial_withdraw() {
 	w.check("partial-refused", false)
 }
 
-func VH_C07_full_withdraw() {
-	w := c07Setup()
-	l1, u1 := c07Range("range1")
+func VH_C07_full_withdraw_at_tick_boundary()  { c07_full_withdraw(0) }
+func VH_C07_full_withdraw_at_lower_boundary() { c07_full_withdraw(1) }
+func VH_C07_full_withdraw_inside_bucket()     { c07_full_withdraw(2) }
+
+func c07_full_withdraw(cur int) {
+	vConfig("lazy_math", 1)
+	w := c07Setup(cur)
+	r1 := c07Pairs[vChoose("range1", c07NPairs())]
+	l1, u1 := r1[0], r1[1]
 	if !w.open(1, l1, u1, c07Liq("liq1")) {
 		vAssume(false)
 	}
-	l2, u2 := c07Range("range2")
+	r2 := c07Pairs[vChoose("range2", c07NPairs2())]
+	l2, u2 := r2[0], r2[1]
 	if !w.open(2, l2, u2, c07Liq("liq2")) {
 		vAssume(false)
 	}
@@ -251,7 +287,9 @@ func VH_C07_full_withdraw() {
 	}
 	w.pos[1].live = false
 	pool, _ := w.k.getPoolById(w.ctx, 1)
-	vAssert(pool.GetCurrentSqrtPrice().IsZero() && pool.GetCurrentTick() == 0 && pool.GetLiquidity().IsZero(), "last:pool-without-positions-has-no-price")
+	vAssert(pool.GetCurrentSqrtPrice().IsZero(), "last:pool-without-positions-has-no-price")
+	vAssert(pool.GetCurrentTick() == 0, "last:pool-without-positions-has-tick-zero")
+	vAssert(pool.GetLiquidity().IsZero(), "last:pool-without-positions-has-no-liquidity")
 	w.cur = 0
 	w.check("last", true)
 }
